@@ -291,7 +291,7 @@ Proof.
   destruct (Nat.ltb (length packet) 36); [discriminate|].
   destruct (slice 16 (length packet) packet) as [body|]; [|discriminate].
   destruct (negb _); [discriminate|]. intros [= <-]. unfold sanitize_scrape.
-  destruct (Z.gtb_spec (Z.of_nat (length (chunks20 (length body / 20) body))) (o_max_scrape o)) as [G|G]; [|lia].
+  destruct (_ >? _) eqn:G; [|lia].
   rewrite firstn_length. lia.
 Qed.
 
